@@ -11,6 +11,7 @@ import (
 	"strings"
 	"syscall"
 	"time"
+	"unicode/utf16"
 
 	"github.com/Vedant9500/WTF/internal/database"
 	"github.com/Vedant9500/WTF/internal/recovery"
@@ -112,6 +113,13 @@ func materialise(path, fault, content string) {
 		os.WriteFile(path, []byte(content), 0o644)
 	case "empty":
 		os.WriteFile(path, nil, 0o644)
+	case "utf16": // the same entries, saved as UTF-16 (little endian) with a byte-order mark
+		u := utf16.Encode([]rune("\ufeff" + content))
+		b := make([]byte, 0, 2*len(u))
+		for _, x := range u {
+			b = append(b, byte(x), byte(x>>8))
+		}
+		os.WriteFile(path, b, 0o644)
 	case "malformed":
 		os.WriteFile(path, []byte("- command: [unclosed\n  description: : :\n\t- x"), 0o644)
 	case "isdir":
@@ -237,7 +245,7 @@ func loaderChild(args []string) int {
 		tr := c.Tr
 		emit(&loaderEv{Op: "start", Main: c.Main, Personal: c.Personal, MaxAtt: c.MaxAtt, Cap: c.CapUS, Tr: tr, Heal: c.Heal})
 		effMain, effPers := c.Main, c.Personal
-		loads := func(f string) bool { return f == "ok" || f == "empty" }
+		loads := func(f string) bool { return f == "ok" || f == "empty" || f == "utf16" }
 		recovery.VerifObserver = func(event string, attempt int, d time.Duration) {
 			switch event {
 			case "attempt":
@@ -306,14 +314,14 @@ func loaderChild(args []string) int {
 // "builtin" for any other non-empty database, "emptydb" otherwise.
 func classifyDB(db *database.Database, c loaderCfg) string {
 	var want []string
-	if c.Main == "ok" {
+	if c.Main == "ok" || c.Main == "utf16" {
 		want = append(want, "ls -la", "tar -czf a.tgz dir", "grep -r pattern .")
 	}
-	if c.Personal == "ok" {
+	if c.Personal == "ok" || c.Personal == "utf16" {
 		want = append(want, "my-backup.sh", "deploy now")
 	}
-	mainLoads := c.Main == "ok" || c.Main == "empty"
-	persLoads := c.Personal == "ok" || c.Personal == "empty" || c.Personal == "missing"
+	mainLoads := c.Main == "ok" || c.Main == "empty" || c.Main == "utf16"
+	persLoads := c.Personal == "ok" || c.Personal == "empty" || c.Personal == "utf16" || c.Personal == "missing"
 	same := len(db.Commands) == len(want)
 	if same {
 		for i := range want {
